@@ -308,8 +308,8 @@ def _c15(tier, seed):
     jobs = J('c15.cpp', 'optim', 'spqlios-fma', n=12)
     jobs += J('c15.cpp', 'debug', 'nayuki-portable', n=4, args=['default=none'])
     # keys and inputs write-protected during every call (guard allocator): transient writes fault
-    jobs += J('c15.cpp', 'optim', 'spqlios-avx', n=4, args=['default=none'], env={'VF_GUARD': 'after'}, extra_src=['guardalloc.cpp'])
-    jobs += J('c15.cpp', 'optim', 'fftw', n=4, args=['default=none'], env={'VF_GUARD': 'after'}, extra_src=['guardalloc.cpp'])
+    jobs += J('c15.cpp', 'optim', 'spqlios-avx', n=4, args=['default=none'], env={'VF_GUARD': 'after', 'VF_GUARD_MAX': '31000'}, extra_src=['guardalloc.cpp'])
+    jobs += J('c15.cpp', 'optim', 'fftw', n=4, args=['default=none'], env={'VF_GUARD': 'after', 'VF_GUARD_MAX': '31000'}, extra_src=['guardalloc.cpp'])
     if tier == 'thorough':
         for be in ['fftw', 'nayuki-avx', 'spqlios-avx']:
             jobs += J('c15.cpp', 'optim', be, n=6)
